@@ -23,4 +23,11 @@ theorem tie_accessors_known :
       ("Bid", "GetBidder"), ("Bid", "SetMatched"), ("VestingQueue", "SetReleased")] : List (String × String)).all
       (fun p => accessors.any (fun a => a.recv == p.1 && a.name == p.2)) = true := by decide +kernel
 
+/-- the four `Iterate…` methods of the keeper walk the WHOLE collection of their name, handing the
+    callback through (what the translation of `Auctions()`, `Bids()`, … assumes of them) -/
+theorem tie_iterators :
+    iterators.map (fun i => (i.name, i.coll, i.walksAll)) =
+      [("IterateAllowedBidders", "AllowedBidder", true), ("IterateAuctions", "Auction", true),
+       ("IterateBids", "Bid", true), ("IterateVestingQueues", "VestingQueue", true)] := by decide +kernel
+
 end Fundraising
